@@ -108,7 +108,8 @@ func (g *UpdGen) readPath(t string) *Operand {
 func (g *UpdGen) val(depth int, wantT string) *UVal {
 	switch {
 	case depth > 0 && wantT == "N" && g.r.Chance(40):
-		return &UVal{K: pick(g.r, []string{"plus", "minus"}), A: g.val(depth-1, "N"), B: g.val(depth-1, "N")}
+		// the grammar has `operand + operand` only: no chains, so no question of associativity
+		return &UVal{K: pick(g.r, []string{"plus", "minus"}), A: g.val(0, "N"), B: g.val(0, "N")}
 	case depth > 0 && wantT == "L" && g.r.Chance(50):
 		return &UVal{K: "list_append", A: g.val(depth-1, "L"), B: g.val(depth-1, "L")}
 	case depth > 0 && g.r.Chance(15):
